@@ -272,7 +272,7 @@ func run(rt *rapid.T, steps []step, g sim.Geometry) (fail string, w *world) {
 			for len(t.Event) < cap(t.Event) {
 				t.Event <- peer.TorAnnounce{}
 			}
-			var raw []byte
+			var raw, raw2 []byte
 			nh := map[int]bool{}
 			for k, v := range m.have {
 				nh[k] = v
@@ -282,20 +282,40 @@ func run(rt *rapid.T, steps []step, g sim.Geometry) (fail string, w *world) {
 					nh[k] = true
 				}
 			}
+			// part 1, while the queue is full: many notifications that pile up at the peer
+			for rep := 0; rep < 4; rep++ {
+				for j := 0; j < 6; j++ {
+					k := (i + j*3) % x.N
+					if nh[k] {
+						raw = append(raw, ref.Encode(ref.Msg{Kind: ref.KExtended, Sub: 3, X: ref.XDontHave, Index: uint32(k)})...)
+						delete(nh, k)
+					} else {
+						raw = append(raw, ref.Encode(ref.Msg{Kind: ref.KHave, Index: uint32(k)})...)
+						nh[k] = true
+					}
+				}
+			}
+			// part 2, sent at the moment the torrent starts catching up: the peer
+			// makes new notifications while older ones are still waiting
 			for j := 0; j < 6; j++ {
 				k := (i + j*3) % x.N
 				if (s.A>>uint(j))&1 == 0 {
 					if !nh[k] {
-						raw = append(raw, ref.Encode(ref.Msg{Kind: ref.KHave, Index: uint32(k)})...)
+						raw2 = append(raw2, ref.Encode(ref.Msg{Kind: ref.KHave, Index: uint32(k)})...)
 						nh[k] = true
 					}
-				} else {
-					raw = append(raw, ref.Encode(ref.Msg{Kind: ref.KExtended, Sub: 3, X: ref.XDontHave, Index: uint32(k)})...)
+				} else if nh[k] {
+					raw2 = append(raw2, ref.Encode(ref.Msg{Kind: ref.KExtended, Sub: 3, X: ref.XDontHave, Index: uint32(k)})...)
 					delete(nh, k)
 				}
 			}
 			m.r.SendRaw(raw)
 			sim.Settle()
+			select {
+			case <-hold:
+			case <-time.After(time.Second):
+			}
+			m.r.SendRaw(raw2)
 			m.have, m.haveAll = nh, false
 			w.lab("advertise-while-torrent-busy")
 			if (s.A>>8)&1 == 1 {
@@ -306,10 +326,6 @@ func run(rt *rapid.T, steps []step, g sim.Geometry) (fail string, w *world) {
 				m.r = nil
 				m.have, m.haveAll, m.unchoked = map[int]bool{}, false, false
 				w.lab("leave-while-torrent-busy")
-			}
-			select {
-			case <-hold:
-			case <-time.After(time.Second):
 			}
 		case "have":
 			if !connected {
